@@ -300,6 +300,32 @@ def run_fd(pid, tier, seed, replay=None):
         if rnd.random() < 0.4:
             rnd.shuffle(body)
         cases.append(mk_case([], ["q", "r"], body, spec=(["q", "r"], doms, cons), mode="bag_terms", budget=20000, maxans=200))
+    # ONE unification that binds several variables at once, some with a domain and some without (list against list):
+    # every domain in the extension must be handed over / checked, whatever order the bindings are visited in
+    for _ in range(n // 4):
+        lo = rnd.randint(-2, 1)
+        dq = list(range(lo, lo + rnd.randint(2, 4)))
+        dr = list(range(lo + rnd.randint(-1, 1), lo + rnd.randint(2, 5)))
+        k = rnd.choice(dq + [dq[-1] + 1, dq[0] - 1])
+        pick = rnd.randint(0, 4)
+        if pick == 0:
+            uni = ["eq", ["list", "a", "q"], ["list", "b", k]]; cons = [["eq", "q", k]]
+        elif pick == 1:
+            uni = ["eq", ["list", "q", "a"], ["list", "r", "b"]]; cons = [["eq", "q", "r"]]
+        elif pick == 2:
+            uni = ["eq", ["list", "a", "q", "b"], ["list", 1, "r", "a"]]; cons = [["eq", "q", "r"]]
+        elif pick == 3:
+            uni = ["eq", ["list", "a", "b", "r"], ["list", "b", 7, "q"]]; cons = [["eq", "q", "r"]]
+        else:
+            uni = ["eq", ["comp", "Pair", "a", ["list", "q", "r"]], ["comp", "Pair", ["list", "b"], ["list", k, "c"]]]; cons = [["eq", "q", k]]
+        goals = [["dom", "q", ["i", dq[0], dq[-1]]], ["dom", "r", ["v"] + dr], uni]
+        if rnd.random() < 0.4:
+            extra = rnd.choice([["ltefd", "q", "r"], ["diseqfd", "q", "r"], ["plusfd", "q", 0, "r"]])
+            goals.append(["rel"] + extra); cons.append(extra)
+        if rnd.random() < 0.3:
+            goals = [goals[2], goals[0], goals[1]] + goals[3:]
+        body = [["fresh", ["a", "b", "c"]] + goals]
+        cases.append(mk_case([], ["q", "r"], body, spec=(["q", "r"], {"q": dq, "r": dr}, cons), mode="bag_terms", budget=20000, maxans=200))
     # corpus
     cases.append(mk_case([], ["q", "r"], [["dom", "q", ["i", 1, 3]], ["rel", "plusfd", "q", "q", "q"], ["dom", "r", ["i", 0, 0]]],
                          spec=(["q", "r"], {"q": [1, 2, 3], "r": [0]}, [["plusfd", "q", "q", "q"]]), mode="bag_terms"))
